@@ -29,7 +29,7 @@ pub fn seeded_with(plan: Plan, full: bool, depth: u32, probes: Vec<TProbe>, tier
     let w = super::width();
     let (gw, fill) = if w == 16 { (16u8, 28u8) } else { (8u8, 14u8) };
     let mut c = TabCfg::new(plan, fill + 2);
-    c.max_len = fill as usize + 1;
+    c.max_len = fill as usize + 2;
     c.max_dup = 1;
     c.max_buckets = if w == 16 { 64 } else { 32 };
     c.full_alphabet = full;
@@ -51,6 +51,12 @@ pub fn seeded_with(plan: Plan, full: bool, depth: u32, probes: Vec<TProbe>, tier
     let mut h = ins(fill);
     h.extend((0..fill).filter(|i| i % 2 == 1).map(TabOp::Remove));
     seeds.push(h);
+    // grown one size further, then thinned to about one group (shrinking decisions at the group-width boundary)
+    for left in [gw + 1, gw, gw - 1] {
+        let mut h = ins(fill + 2);
+        h.extend((left..fill + 2).map(TabOp::Remove));
+        seeds.push(h);
+    }
     b.seeds = seeds;
     Box::new(b)
 }
